@@ -4,7 +4,6 @@ import (
 	"errors"
 	"fmt"
 	"sort"
-	"strings"
 	"time"
 
 	"github.com/buzzfeed/sso/internal/pkg/sessions"
@@ -119,7 +118,9 @@ func (p *SingleFlightProvider) RefreshSessionIfNeeded(s *sessions.SessionState) 
 // ValidateGroupMembership wraps the provider's GroupsResource function in a single flight call.
 func (p *SingleFlightProvider) ValidateGroupMembership(email string, allowedGroups []string, accessToken string) ([]string, error) {
 	sort.Strings(allowedGroups)
-	response, err := p.do("ValidateGroupMembership", fmt.Sprintf("%s:%s", email, strings.Join(allowedGroups, ",")),
+	// %q quotes the e-mail and every group name, so that different (e-mail, group set) questions can
+	// never share a key (an e-mail containing ':' or a group name containing ',' used to collide)
+	response, err := p.do("ValidateGroupMembership", fmt.Sprintf("%q:%q", email, allowedGroups),
 		func() (interface{}, error) {
 			return p.provider.ValidateGroupMembership(email, allowedGroups, accessToken)
 		})
